@@ -4,6 +4,7 @@
   the statement of the theorems).
 -/
 import Model.Cast
+import Model.JsonWrite
 
 namespace Jl.CastSpec
 open Jl
@@ -100,5 +101,110 @@ def typedViolation (want : Ty) (src : Dyn) (res : Outcome Dyn) : Option String :
     | .nil, _ => some "nil-in-non-nil-out"
     | _, .nil => some "non-nil-in-nil-out"
     | _, _ => if Cast.typeOf r == want then none else some "wrong-result-type"
+
+/-! ### C11: the binary form of fixed-width values -/
+
+/-- Size in bytes of the fixed-width types (amd64: int/uint are 8 bytes). -/
+def fixedSize : Ty → Option Nat
+  | .int t => some (t.bits / 8)
+  | .f64 => some 8
+  | .f32 => some 4
+  | .bool => some 1
+  | _ => none
+
+/-- The little-endian image of a fixed-width value, stated directly (two's complement for
+    signed integers, IEEE bit pattern for floats, one normalised byte for bool). -/
+def leImage : Dyn → Option Bytes
+  | .int t v => some (LE.put (t.bits / 8) (LE.toU t.bits v))
+  | .f64 b => some (LE.put 8 b)
+  | .f32 b => some (LE.put 4 b)
+  | .bool b => some [if b then 1 else 0]
+  | _ => none
+
+/-- C11 on one case: `encode` (callee ToBinary, fixed-width source) or `decode` (callee
+    cast.To(T, bytes) with T fixed-width). -/
+def binaryViolation (callee : String) (target : Option Ty) (src : Dyn) (res : Outcome Dyn) : Option String :=
+  if callee == "ToBinary" then
+    match leImage src with
+    | none => none
+    | some img =>
+      match res with
+      | .ok (.bytes b) => if b == img then none else some "not-little-endian-image"
+      | .ok _ => some "wrong-type"
+      | .err _ => some "encode-rejected"
+      | .panic _ => some "panic"
+  else
+    match target.bind fixedSize, target, src with
+    | some size, some T, .bytes s =>
+      if s.length == size then
+        match res with
+        | .ok v =>
+          if Cast.typeOf v != T then some "wrong-type"
+          else if T == .bool then
+            (match v, s with
+             | .bool b, [x] => if b == (x != 0) then none else some "bool-decode"
+             | _, _ => some "bool-decode")
+          else if leImage v == some s then none else some "decode-not-inverse"
+        | .err _ => some "well-sized-rejected"
+        | .panic _ => some "panic"
+      else
+        match res with
+        | .err _ => none
+        | .ok _ => some "wrong-size-accepted"
+        | .panic _ => some "panic"
+    | _, _, _ => none
+
+/-! ### C12: numbers rendered as text or JSON numbers read back exactly -/
+
+/-- Plain decimal literal: a valid JSON number without exponent. -/
+def plainDecimal (s : Bytes) : Bool :=
+  JsonWrite.isValidNumber s && !s.contains 0x65 && !s.contains 0x45
+
+def sameDyn (a b : Dyn) : Bool :=
+  match a, b with
+  | .int t v, .int t' v' => t == t' && v == v'
+  | .f64 x, .f64 y => x == y
+  | .f32 x, .f32 y => x == y
+  | .bool x, .bool y => x == y
+  | _, _ => false
+
+/-- `text` = ToString(src) or ToNumber(src); `back` = cast.To(type of src, text). -/
+def renderViolation (via : String) (src : Dyn) (text : Outcome Dyn) (back : Option (Outcome Dyn)) :
+    Option String :=
+  let finite : Bool :=
+    match src with
+    | .f64 b => Float.isFinite Float.f64 b
+    | .f32 b => Float.isFinite Float.f32 b
+    | _ => true
+  let numeric : Bool := match src with | .int .. | .f64 _ | .f32 _ => true | _ => false
+  match text with
+  | .panic _ => some "panic"
+  | .err _ => some "render-rejected"
+  | .ok t =>
+    let lit : Option Bytes :=
+      match via, t with
+      | "ToString", .str s => some s
+      | "ToNumber", .num s => some s
+      | _, _ => none
+    match lit with
+    | none => some "wrong-render-type"
+    | some s =>
+      if !finite then
+        -- non-finite floats never produce a number that marshals
+        if JsonWrite.isValidNumber s then some "non-finite-renders-as-number" else none
+      else if numeric && !plainDecimal s then some "not-a-plain-decimal-literal"
+      else if via == "ToNumber" && !JsonWrite.isValidNumber s then some "number-does-not-marshal"
+      else
+        match src, via with
+        | .bool b, "ToString" =>
+          if s != IntText.formatBool b then some "bool-text" else
+          (match back with | some (.ok r) => if sameDyn r src then none else some "read-back-differs" | _ => some "read-back-rejected")
+        | .bool b, "ToNumber" =>
+          if s != (if b then [0x31] else [0x30]) then some "bool-number" else
+          (match back with | some (.ok r) => if sameDyn r src then none else some "read-back-differs" | _ => some "read-back-rejected")
+        | _, _ =>
+          match back with
+          | some (.ok r) => if sameDyn r src then none else some "read-back-differs"
+          | _ => some "read-back-rejected"
 
 end Jl.CastSpec
